@@ -174,7 +174,9 @@ Example C30_ex_shaped_hyps :
   forallb auth_char C30_ex_h = true /\ no_at C30_ex_h = true /\ no_colon C30_ex_h = true /\ starts_ch 91 C30_ex_h = false /\
   forallb auth_char C30_ex_P = true /\ no_at C30_ex_P = true /\ no_colon C30_ex_P = true /\ rest_ok C30_ex_rest.
 Proof.
-  unfold scheme_text. repeat match goal with |- _ /\ _ => split end; c30_decide.
+  split. { unfold scheme_text. split; [vm_compute; reflexivity|]. split; [vm_compute; discriminate| vm_compute; reflexivity]. }
+  split; [vm_compute; discriminate|]. split; [vm_compute; discriminate|]. split; [left; reflexivity|].
+  repeat (split; [vm_compute; reflexivity|]). left. vm_compute. reflexivity.
 Qed.
 Example C30_ex_reparse_hyps :
   is_connect m_get = false /\
@@ -184,7 +186,11 @@ Example C30_ex_reparse_hyps :
   clean_path (u_path C30_ex_u) /\ lenN (absolute C30_ex_u) <= uri_MAX_URL - 1 /\
   (s_id (u_scheme C30_ex_u) =? uri_PROTO_FTP) || (s_id (u_scheme C30_ex_u) =? uri_PROTO_UNKNOWN) = false.
 Proof.
-  unfold scheme_text, settled_host, clean_path.
-  repeat match goal with |- _ /\ _ => split end; try c30_decide.
-  all: intros H; vm_compute in H; discriminate H.
+  split; [vm_compute; reflexivity|].
+  split. { unfold scheme_text. split; [vm_compute; reflexivity|]. split; [vm_compute; discriminate| vm_compute; reflexivity]. }
+  split; [vm_compute; reflexivity|]. split; [vm_compute; discriminate|]. split; [vm_compute; discriminate|].
+  split. { unfold settled_host. split; [vm_compute; discriminate|]. repeat (split; [vm_compute; reflexivity|]).
+           intros H; vm_compute in H; discriminate H. }
+  split; [vm_compute; reflexivity|]. split; [unfold clean_path; split; vm_compute; reflexivity|].
+  split; [vm_compute; discriminate| vm_compute; reflexivity].
 Qed.
